@@ -23,7 +23,6 @@ import (
 	"fmt"
 	"io"
 	"math"
-	"slices"
 
 	"seehuhn.de/go/membudget"
 	"seehuhn.de/go/pdf/graphics/bitmap"
@@ -801,6 +800,21 @@ func (d *decoder) processTextRegion(hdr *segmentHeader, data []byte) error {
 	for _, refNum := range hdr.RefSegments {
 		refSet[refNum] = true
 	}
+	// subsumedBy holds the segments that a later-numbered segment of the
+	// ref list refers to.  It is computed once, in time linear in the size
+	// of the segment headers (the lists may be tens of thousands long).
+	subsumedBy := make(map[uint32]bool)
+	for laterRef := range refSet {
+		laterSeg, ok := d.segments[laterRef]
+		if !ok || laterSeg.header == nil {
+			continue
+		}
+		for _, r := range laterSeg.header.RefSegments {
+			if r < laterRef {
+				subsumedBy[r] = true
+			}
+		}
+	}
 	var symbols []*bitmap.Bitmap
 	for _, refNum := range hdr.RefSegments {
 		ref, ok := d.segments[refNum]
@@ -810,19 +824,7 @@ func (d *decoder) processTextRegion(hdr *segmentHeader, data []byte) error {
 		// skip this SD if a later referenced SD already refers to it
 		subsumed := false
 		if ref.header != nil && ref.header.Type == segSymbolDict {
-			for _, laterRef := range hdr.RefSegments {
-				if laterRef <= refNum {
-					continue
-				}
-				if laterSeg, ok := d.segments[laterRef]; ok && laterSeg.header != nil {
-					if slices.Contains(laterSeg.header.RefSegments, refNum) {
-						subsumed = true
-					}
-				}
-				if subsumed {
-					break
-				}
-			}
+			subsumed = subsumedBy[refNum]
 		}
 		if !subsumed {
 			symbols = append(symbols, ref.symbols...)
